@@ -111,6 +111,15 @@ Definition probe_eqb (a b : probe) : bool :=
   | _, _ => false
   end.
 
+(* probes of the driver's Instance-graph fixture (trait ids >= 900) have no counterpart in the model *)
+Definition model_probe (p : probe) : bool :=
+  match p with
+  | PCont k _ _ _ _ _ _ _ => k <? 900
+  | PScalar k _ => k <? 900
+  | PReadOnly k _ => k <? 900
+  | PInst _ _ _ => false
+  end.
+
 (* codes: 11 original's values, 12 copy's values, 13 sharing pattern, 14 owner pattern, 15 probes,
    16 class *)
 Definition corr_codes (cs : case) : list Z :=
@@ -122,7 +131,7 @@ Definition corr_codes (cs : case) : list Z :=
                                         (shared_with (co_orig ob) (vget (co_copy ob) (fst p)))) c)
   ++ chk 14 (forallb (fun p => blist_eqb (owned_pattern (vget (co_copy m) (fst p)))
                                          (owned_pattern (vget (co_copy ob) (fst p)))) c)
-  ++ chk 15 (list_eqb probe_eqb (co_probes m) (co_probes ob))
+  ++ chk 15 (list_eqb probe_eqb (co_probes m) (filter model_probe (co_probes ob)))
   ++ chk 16 (Bool.eqb (co_same_class m) (co_same_class ob)).
 
 Definition law_codes (cs : case) : list Z := let '(c, hs, op, ob) := cs in law op c ob.
